@@ -66,8 +66,11 @@ def base_path(p):
     return p
 
 
+TORN = "$torn"      # what `decode` answers for a file that does not decode (a stored None decodes to the value JSON `None`)
+
+
 def decode(mp, data):
-    """Content of a file → value JSON of the model, or None when it does not decode (a partial write)."""
+    """Content of a file → value JSON of the model, or TORN when it does not decode (a partial write)."""
     kind = base_path(mp)[0]
     try:
         if kind == "runInfo":
@@ -75,12 +78,12 @@ def decode(mp, data):
             return {"s": "run_info"}
         obj = cloudpickle.loads(data)
     except Exception:  # noqa: BLE001
-        return None
+        return TORN
     if kind == "defaults":
         return {"s": "defaults"}
     if kind == "dictArr":
         if not isinstance(obj, dict):
-            return None
+            return TORN
         return {"t": [terms.enc(obj[k]) for k in sorted(obj)]}
     return terms.enc(obj)
 
@@ -108,7 +111,7 @@ def canon_real(events, folder):
         elif e[0] == "close":
             mp = model_path(rel)
             v = decode(mp, open_.pop(e[1], b""))
-            out.append(["write", mp, None if v is None else terms.canon(v)])
+            out.append(["write", mp, TORN if v == TORN else terms.canon(v)])
         elif e[0] == "rename":
             out.append(["rename", model_path(rel), model_path(os.path.relpath(e[2], folder))])
         elif e[0] == "unlink":
@@ -235,5 +238,5 @@ def abstract(folder):
             r = fn if rel == "." else os.path.join(rel, fn)
             mp = model_path(r)
             v = decode(mp, open(os.path.join(root, fn), "rb").read())
-            files.append([mp, "P" if v is None else {"C": v}])
+            files.append([mp, "P" if v == TORN else {"C": v}])
     return {"files": sorted(files, key=lambda x: json.dumps(x[0])), "dirs": dirs}
